@@ -1,6 +1,7 @@
 mod broker;
 mod common;
 mod cost;
+mod http;
 mod jura;
 mod perf;
 mod sched;
@@ -33,6 +34,8 @@ fn main() {
                 "jura" => jura::gen(seed, cases, &a[5], &a[6]),
                 "server-uist" => server::gen(false, seed, cases, &a[5], &a[6]),
                 "server-jura" => server::gen(true, seed, cases, &a[5], &a[6]),
+                "http-uist" => server::gen(false, seed, cases, &a[5], &a[6]),
+                "http-jura" => server::gen(true, seed, cases, &a[5], &a[6]),
                 _ => usage(),
             }
         }
@@ -46,6 +49,8 @@ fn main() {
             "jura" => jura::run(&a[3], &a[4], &a[5]),
             "server-uist" => server::run::<rotala::http::uist::AppState>(&a[3], &a[4], &a[5]),
             "server-jura" => server::run::<rotala::http::jura::AppState>(&a[3], &a[4], &a[5]),
+            "http-uist" => http::run::<http::U>(&a[3], &a[4], &a[5]),
+            "http-jura" => http::run::<http::J>(&a[3], &a[4], &a[5]),
             _ => usage(),
         },
         _ => usage(),
